@@ -1060,7 +1060,7 @@ bucket_byValue(Bucket *self, PyObject *omin)
 
     COPY_VALUE_FROM_ARG(min, omin, copied);
     UNLESS(copied)
-        return NULL;
+        goto err;       /* (not "return":  self is pinned) */
 
     for (i=0, l=0; i < self->len; i++)
         if (TEST_VALUE(self->values[i], min) >= 0)
